@@ -74,4 +74,16 @@ TEXTS = {
         "note": "The documented table is four lines (tuple admits newtype, not the reverse).",
         "technique": "exhaustive enumeration against the documented table",
     },
+    "C01": {
+        "level": "Two-stage generated-input search over programs and inputs: 300 receiver declarations per run (quick; 16 x 300 thorough) decoded from the seed, emitted as a real crate and compiled by rustc against the working tree; per receiver, mistake-free inputs generated from its own spec and compared with a reference interpreter of the declaration (value of every field, defaults at both levels, multiple, flatten hand-off, transforms, from_ident).",
+        "ref": "DESIGN.md sections 2 and 3 C01",
+        "note": "The oracle is a model written from the statement and README (vmodel/src/model.rs), sharing no code with darling's code generator; ident_case is called directly for the case rules.",
+        "technique": "two-stage property-based testing (generated programs compiled, then generated inputs) against a reference model",
+    },
+    "C02": {
+        "level": "Same generated receivers; inputs with 0..8 injected mistakes of every kind at any depth; the flattened error leaves must equal the model's leaves as a multiset of (kind, subject, path), Err iff >=1 mistake, len() == leaf count.",
+        "ref": "DESIGN.md section 3 C02",
+        "note": "Leaves are recognised by their fixed message prefixes; index digits in name[i] are normalised away; messages originating in std/syn are matched as 'custom'.",
+        "technique": "fault-injecting property-based testing against a reference model of the error multiset",
+    },
 }
